@@ -1672,6 +1672,20 @@ def c18(rep, tier, seed, wd, replay):
                 if io == "ok":
                     jl.append("jcreate %s" % f[2])
                     jm.append(None)
+    # hypothesis of C18_complete_whole_name evaluated for every requested account pattern
+    lpats = set()
+    for cfg, ops, impl, model in results:
+        for op in ops:
+            f = op.split()
+            if f[0] == "list" and f[2] != "-":
+                for ph in f[2].split(","):
+                    pth = "" if ph == "." else bytes.fromhex(ph).decode("utf-8", "replace")
+                    if "/" in pth and pth.split("/", 1)[1]:
+                        lpats.add(pth.split("/", 1)[1])
+    lp = sorted(lpats)
+    sh_ = [o.strip() for o in run_model(["jlshape %s" % hx(x) for x in lp])] if lp else []
+    rep.cov["list_patterns_shape_hypothesis_evaluated"] = len(lp)
+    rep.cov["list_patterns_shape_hypothesis_fails"] = sorted(x for x, o in zip(lp, sh_) if o != "ok")[:20]
     out = run_model(jl)
     rep.cov["listings_judged"] = sum(1 for m in jm if m is not None)
     for m, o in zip(jm, out):
@@ -1971,6 +1985,9 @@ def run_dkg(rep, dh, wd, scen, label):
     with ThreadPoolExecutor(max_workers=jobs) as ex:
         for r_ in ex.map(run_chunk, chunks):
             results += r_
+    # back into the order of `scen` (chunk k holds scenarios k, k+jobs, k+2*jobs, ...): callers zip results with scenarios
+    order = [i for k in range(len(chunks)) for i in range(k, len(scen), jobs)]
+    results = [r_ for _, r_ in sorted(zip(order, results), key=lambda p_: p_[0])]
     # rerun scenarios that did not run because an earlier one in their chunk crashed
     pending = [r_ for r_ in results if r_["impl"] is None]
     for r_ in pending:
@@ -2301,7 +2318,8 @@ THEOREMS.update({
                                "Dirk.C20_handlers_shape", "Dirk.C20_legacy_counterexample"]),
     "C19": ("Dirk.Props.C19", ["Dirk.C19_policy", "Dirk.C19", "Dirk.facts_tls_clientAuth", "Dirk.facts_tls_minVersion", "Dirk.facts_tls_clientCAs",
                                "Dirk.facts_tls_creds", "Dirk.facts_services", "Dirk.facts_interceptor", "Dirk.facts_clientName"]),
-    "C18": ("Dirk.Props.C18", ["Dirk.C18_sound", "Dirk.C18_complete", "Dirk.C18_fields", "Dirk.C18_dynamic"]),
+    "C18": ("Dirk.Props.C18Whole", ["Dirk.C18_sound", "Dirk.C18_complete", "Dirk.C18_fields", "Dirk.C18_dynamic",
+                                    "Dirk.C18_complete_whole_name", "Dirk.C18_anchor_only_widens"]),
     "C14": ("Dirk.Props.C14", ["Dirk.C14", "Dirk.C14_proposals", "Dirk.C14_threshold_from_generation"]),
     "C13": ("Dirk.Props.C13", ["Dirk.Dkg.C13_reject", "Dirk.Dkg.C13_no_account", "Dirk.Dkg.C13_legacy_counterexample"]),
     "C16": ("Dirk.Props.C16", ["Dirk.Dkg.C16_refuse_non_peer", "Dirk.Dkg.C16_share_owner"]),
@@ -2322,7 +2340,7 @@ THEOREMS.update({
     "C10": ("Dirk.Props.C10", ["Dirk.C10_never_lowers", "Dirk.C10_protects", "Dirk.C10_composes", "Dirk.C10_refuses_after_prop",
                                "Dirk.C10_refuses_after_att", "Dirk.C10_bad_metadata", "Dirk.C10_parse_error_no_change",
                                "Dirk.C10_legacy_counterexample"]),
-    "C07": ("Dirk.Props.C07", ["Dirk.C07_scan_eq_spec", "Dirk.C07_default_deny", "Dirk.C07_unknown_client", "Dirk.C07_no_identity",
+    "C07": ("Dirk.Props.C07Refine", ["Dirk.C07_check_refines_spec", "Dirk.C07_served_has_bearing", "Dirk.C07_scan_eq_spec", "Dirk.C07_default_deny", "Dirk.C07_unknown_client", "Dirk.C07_no_identity",
                                "Dirk.C07_refused_no_effect_att", "Dirk.C07_refused_no_effect_prop", "Dirk.C07_refused_no_effect_sign",
                                "Dirk.C07_refused_no_effect_atts", "Dirk.C07_resolved_account", "Dirk.C07_legacy_counterexample",
                                "Dirk.C07_fixed_alternation", "Dirk.C07_whole_name", "Dirk.C07_entry_matches_spec",
